@@ -182,6 +182,29 @@ theorem done_ok (m : State) (j : Mon) (k : Nat) (h : Rel m j) :
       | none => rw [hp] at ho; cases ho
       | some sid => rw [hp] at ho; exact ⟨sid, by simpa using ho⟩
 
+theorem fail_ok (m : State) (j : Mon) (k : Nat) (h : Rel m j) :
+    Rel (deliveryFailed m k).1 ((j.beginOp (.fail k)).obsRun (deliveryFailed m k).2) := by
+  unfold deliveryFailed
+  cases m.inflight.find? (fun p => p.1 == k) with
+  | none => exact h
+  | some p =>
+    have hj : ∀ l : List Obs, (∀ o ∈ l, ∃ sid, o = Obs.exc sid) → (j.beginOp (.fail k)).obsRun l = j := by
+      intro l
+      induction l with
+      | nil => intro _; rfl
+      | cons o l ih =>
+        intro hl
+        obtain ⟨sid, rfl⟩ := hl o List.mem_cons_self
+        show (j.onObs (.exc sid)).obsRun l = j
+        exact ih (fun o ho => hl o (List.mem_cons_of_mem _ ho))
+    simp only
+    rw [hj]
+    · exact RelT.state h rfl rfl rfl rfl
+    · intro o ho
+      cases hp : p.2 with
+      | none => rw [hp] at ho; cases ho
+      | some sid => rw [hp] at ho; exact ⟨sid, by simpa using ho⟩
+
 theorem setKey_ok (m : State) (j : Mon) (sid kk : Nat) (h : Rel m j) :
     Rel (step m (.setKey sid kk)).1 ((j.beginOp (.setKey sid kk)).obsRun (step m (.setKey sid kk)).2) := by
   show RelT m.now { m with subs := m.subs.map (fun s => if s.sid = sid then { s with key := kk } else s) }
@@ -205,11 +228,11 @@ theorem unsubscribe_ok (m : State) (j : Mon) (sid : SidRef) (h : Rel m j) (hn : 
   -- a refusal that the monitor merely checks
   have checked : ∀ (s : SidRef),
       ({ j with awaiting := some (.unsubscribe s) } : Mon).onResp (.unsubscribe s) 412 none none
-        = check { j with awaiting := some (.unsubscribe s) } (412 != 200) →
+        = check { j with awaiting := some (.unsubscribe s) } (refused 412) →
       RelT m.now m (({ j with awaiting := some (.unsubscribe s) } : Mon).onObs (.resp 412 none none)) := by
     intro s hs
     rw [onObs_resp, hs]
-    exact RelT.replace h (by simp [check, h.ok]) rfl rfl rfl rfl rfl rfl rfl rfl rfl rfl h.subs h.vals
+    exact RelT.replace h (by simp [check, h.ok, show refused 412 = true from by decide]) rfl rfl rfl rfl rfl rfl rfl rfl rfl rfl h.subs h.vals
   cases sid with
   | unknown => exact checked .unknown rfl
   | absent => exact checked .absent rfl
@@ -320,7 +343,7 @@ theorem timeoutOk_parse (to : Option Str) (h : timeoutOk to = true) : (parseTO t
 def entry0 (cb : Option Str) (exp : Int) : SubMon :=
   { alive := true, url := callbackUrl cb, nextSeq := 0, expires := exp, gotInitial := false, credit := 0, lastVals := [] }
 /-- ... and after its initial event -/
-def entry1 (cb : Option Str) (exp : Int) (cur : List (Option Int)) : SubMon :=
+def entry1 (cb : Option Str) (exp : Int) (cur : List (Option Val)) : SubMon :=
   { alive := true, url := callbackUrl cb, nextSeq := specNextKey 0, expires := exp, gotInitial := true, credit := 0,
     lastVals := cur }
 
@@ -386,7 +409,7 @@ theorem subscribe_new_ok (m : State) (j : Mon) (c : Char) (cs : Str) (to : Optio
         show (decide (j.now ≤ m.now) && decide (m.now ≤ j.target)) = true
         simp [hn, h.tgt]
       rw [htime, hbody]
-      simp [entry0, hs0key, hurlb, h.ok]
+      simp [entry0, hs0key, hurlb, h.ok, bodyOk_bodyOf]
     · show m.now = j.now
       exact hn.symm
     · rfl
@@ -445,9 +468,9 @@ theorem subscribe_ok (m : State) (j : Mon) (sid : SidRef) (cb to : Option Str) (
     rw [onObs_resp, hs]
     exact RelT.replace h h.ok rfl rfl rfl rfl rfl rfl rfl rfl rfl rfl h.subs h.vals
   -- a refused renewal of SID k that is not (any more) in the model's list
-  have gone : ∀ (k : Nat) (st : Nat), sid = .known k → st ≠ 200 → (∀ s ∈ m.subs, s.sid ≠ k) →
+  have gone : ∀ (k : Nat) (st : Nat), sid = .known k → st ≠ 200 → refused st = true → (∀ s ∈ m.subs, s.sid ≠ k) →
       RelT m.now m (({ j with awaiting := some (.subscribe sid cb to) } : Mon).onObs (.resp st none none)) := by
-    intro k st hsid hst hnone
+    intro k st hsid hst hst' hnone
     subst hsid
     have hkill : SubsOk m (j.subs.modify k (fun s => { s with alive := false })) :=
       (h.subs.kill k).state (filter_ne_self hnone).symm rfl (Int.le_refl _)
@@ -455,12 +478,11 @@ theorem subscribe_ok (m : State) (j : Mon) (sid : SidRef) (cb to : Option Str) (
       have := vals_kill h.vals k
       intro s hs
       exact this s (by show s ∈ m.subs.filter _; rw [filter_ne_self hnone]; exact hs)
-    have hst' : (st != 200) = true := by simpa using hst
     cases hj : j.subs[k]? with
-    | none => exact checked st (st != 200) hst' (by simp [Mon.onResp, hj])
+    | none => exact checked st (refused st) hst' (by simp [Mon.onResp, hj])
     | some sm =>
       cases ha : sm.alive with
-      | false => exact checked st (st != 200) hst' (by simp [Mon.onResp, hj, ha])
+      | false => exact checked st (refused st) hst' (by simp [Mon.onResp, hj, ha])
       | true =>
         have hexp : ¬ (j.now < sm.expires) := by
           intro hlt
@@ -488,13 +510,13 @@ theorem subscribe_ok (m : State) (j : Mon) (sid : SidRef) (cb to : Option Str) (
     show RelT m.now m (({ j with awaiting := some (.subscribe sid cb to) } : Mon).onObs (.resp 400 none none))
     cases sid with
     | absent => exact checked 400 (!mustAccept cb to) (by simp [mustAccept, hto]) (by simp [Mon.onResp])
-    | unknown => exact checked 400 (400 != 200) rfl (by simp [Mon.onResp])
+    | unknown => exact checked 400 (refused 400) (by decide) (by simp [Mon.onResp])
     | known k =>
       cases hj : j.subs[k]? with
-      | none => exact checked 400 (400 != 200) rfl (by simp [Mon.onResp, hj])
+      | none => exact checked 400 (refused 400) (by decide) (by simp [Mon.onResp, hj])
       | some sm =>
         cases ha : sm.alive with
-        | false => exact checked 400 (400 != 200) rfl (by simp [Mon.onResp, hj, ha])
+        | false => exact checked 400 (refused 400) (by decide) (by simp [Mon.onResp, hj, ha])
         | true => exact same 400 (by simp [Mon.onResp, hj, ha, hto])
   | some tv =>
     cases sid with
@@ -502,14 +524,14 @@ theorem subscribe_ok (m : State) (j : Mon) (sid : SidRef) (cb to : Option Str) (
       have hm : subscribe m .unknown cb to = (m, [.resp 404 none none]) := by simp [subscribe, hp]
       rw [hm]
       show RelT m.now m (({ j with awaiting := some (.subscribe .unknown cb to) } : Mon).onObs (.resp 404 none none))
-      exact checked 404 (404 != 200) rfl (by simp [Mon.onResp])
+      exact checked 404 (refused 404) (by decide) (by simp [Mon.onResp])
     | known k =>
       cases hf : findSub m.subs k with
       | none =>
         have hm : subscribe m (.known k) cb to = (m, [.resp 404 none none]) := by simp [subscribe, hp, hf]
         rw [hm]
         show RelT m.now m (({ j with awaiting := some (.subscribe (.known k) cb to) } : Mon).onObs (.resp 404 none none))
-        exact gone k 404 rfl (by decide) (findSub_none hf)
+        exact gone k 404 rfl (by decide) (by decide) (findSub_none hf)
       | some s =>
         obtain ⟨hs, hsk⟩ := findSub_some hf
         obtain ⟨sm, htr⟩ := h.subs.subs s hs
